@@ -29,7 +29,9 @@ LEVEL_TEXT = ('machine-checked theorems (Coq) for every ordered field (hence the
 LEVEL_NOTE = ('theorems are about the Gallina model Model/Filters.v; exp enters as a function with the four properties '
               'of the exponential (proved for Coq R exp; checked numerically for jnp.exp as table obligations); float '
               'caveat: factors underflow to 0.0 for exponents < -745, the oracle demands > 0 only when the exponent > -700; '
-              'model tied to the code by differential correspondence')
+              'model tied to the code twice: the exponent / strength formulas, defaults and adapters are regenerated from the AST of '
+              'filtering.py / time_integration.py on every run (Gen/FiltersSrc.v; C15_model_is_source proves Model/Filters.v equal to them), '
+              'and by differential correspondence')
 
 _jax = None
 def J():
